@@ -121,6 +121,17 @@ def run(ck):
     ws = lib.single(prog, SV + "writeStatusLine")
     casts = [e for e in ws.events("cast") if (e.get("to") or "") == "int" and "code" in ((e.get("sub") or {}).get("t") or "")]
     ck.ob("C02-R2", "server-writes-decimal-code", bool(casts), ws.loc, ws, "os << static_cast<int>(code)")
+    # the reader delimits the code with match_until(' '): the writer puts a space behind it on every path, reason phrase or not
+    code_ins = [e for e in ws.events("call") if e.get("op") == "<<" and any(c_.block == e.block and c_.idx < e.idx and (c_.get("t") or "") in (e.get("t") or "") for c_ in casts)]
+    is_space = lambda e: e["k"] == "call" and e.get("op") == "<<" and any(a_.get("const") in ("c:32", "s: ") or (isinstance(a_.get("const"), str) and a_["const"].startswith("s: ")) for a_ in e.get("args", [])[-1:])
+    delim = lib.single(prog, H + "Private::ResponseLineStep::apply")
+    needs_space = any(a_.get("const") == "c:32" for e in delim.calls(lambda e: (e.get("callee") or "") == "Pistache::match_until") for a_ in e.get("args", [])[:1])
+    if code_ins and needs_space:
+        bad = [x for x in cfg.exits_without(ws, is_space, start_block=code_ins[-1].block, start_idx=code_ins[-1].idx + 1) if x.kind != "throw" and not (x.event is not None and x.event.get("const") is False)]
+        ck.ob("C02-R2", "server-writes-space-after-code", not bad, code_ins[-1].loc, ws,
+              "a space follows the status code on every path" if not bad else
+              "the status code can be followed directly by CRLF (no space): the client's parser scans for the space and runs into the next line")
+
     conv = [e for e in rs.calls(lambda e: (e.get("callee") or "") in ("strtol", "std::strtol"))]
     cast_back = [e for e in rs.events("cast") if (e.get("to") or "").endswith("Code")]
     ok = bool(conv) and conv[0]["args"][2].get("const") == 10 and bool(cast_back)
@@ -165,6 +176,17 @@ def run(ck):
     colon = [x for x in cc if x[1] == "c:58"]
     spaces = [x for x in cc if x[1] == "c:32"]
     ck.ob("C02-R3", "reader:HeadersStep-splits-on-colon-space", bool(colon) and bool(spaces), hs.loc, hs, "name up to ':', spaces skipped, value up to CRLF")
+    # the parser keeps the first occurrence of a header name: the headers the client generates itself (Host, User-Agent,
+    # Content-Length) are written after the caller's own collection, so that a header the caller set is the one that arrives
+    flat_wr = lib.flat_calls(prog, wr, lambda g_: False)
+    pos_user = [i for i, (e, _a) in enumerate(flat_wr) if (e.get("callee") or "") == CL + "writeHeaders"]
+    pos_gen = [(i, e) for i, (e, _a) in enumerate(flat_wr) if strip_tmpl(e.get("callee") or "") == CL + "writeHeader"]
+    if pos_user and pos_gen:
+        early = [e for i, e in pos_gen if i < pos_user[0]]
+        ck.ob("C02-R3", "client-generated-headers-after-user-headers", not early, (early[0].loc if early else wr.loc), wr,
+              "user headers first, generated ones behind them" if not early else
+              "the generated header written at line %s precedes the caller's headers: the server keeps the first occurrence, so a header of "
+              "that name set through the request builder never arrives" % early[0].get("l"))
     wc = lib.single(prog, CL + "writeCookies")
     seq = [p_[1] for p_ in stream_sequence(wc, prog) if p_[0] == "lit"]
     afr = lib.single(prog, H + "CookieJar::addFromRaw")
